@@ -459,8 +459,71 @@ def r7_bool_assignment(ctx, res):
                       "rustemo-compiler/src/generator")
 
 
+def r8_terminal_content(ctx, res):
+    """What a terminal carries into the AST is decided where the terminal is taken into the grammar: it has content unless it
+    is written as a string match. The recogniser stored is the one written - a terminal written as a regular expression
+    (even one that matches a single text) keeps its token text in the tree."""
+    from . import mir
+    from .mir import Sim, fmt
+    F = ctx.facts("core")
+    rid = res.rule("C10-R8", "a terminal has content unless it is WRITTEN as a string match: collect_terminals stores the recogniser as "
+                   "parsed (no rewriting of one kind into the other) and has_content = false exactly for Recognizer::StrConst", floor=2)
+    try:
+        f = F.one(r"grammar::builder::GrammarBuilder::collect_terminals$")
+    except Exception:      # noqa
+        res.anchor_lost(rid, "GrammarBuilder::collect_terminals not found")
+        return
+    n, bad_rec, bad_tab, table = 0, None, None, set()
+    for p in Sim(f, F, max_paths=200000).run():
+        rewritten = None
+        for e in p.events:
+            if e[0] == "store" and isinstance(e[1], tuple) and e[1][0] == "field" and e[1][2] == "recognizer":
+                rewritten = fmt(e[2])[:80]
+            if e[0] == "call" and e[1].endswith("::insert") and len(e[2]) > 2 and mir.has_field(e[2][0], "terminals") is not None \
+                    and isinstance(e[2][2], tuple) and e[2][2][0] == "agg":
+                d = dict(e[2][2][2])
+                rec, hc = d.get("recognizer"), d.get("has_content")
+                if rec is None or hc is None:
+                    continue
+                n += 1
+                as_parsed = isinstance(rec, tuple) and rec[0] == "field" and rec[2] == "recognizer" and \
+                    mir.has_call(rec, "Iterator>::next") and rewritten is None
+                if not as_parsed:
+                    bad_rec = rewritten or fmt(rec)[:80]
+                kind = None
+                for c, v in p.cond:
+                    if c[0] == "discr" and isinstance(v, frozenset) and len(v) == 1 and "recognizer" in fmt(c):
+                        k = next(iter(v))
+                        if k in ("StrConst", "RegexTerm"):
+                            kind = k
+                        elif k == "None" and kind is None:
+                            kind = "None"
+                        elif k == "Some" and kind is None:
+                            kind = "Some"
+                hc = {"0": 0, "1": 1, "false": 0, "true": 1}.get(fmt(hc), hc)
+                if hc in (0, 1) and kind in ("StrConst", "RegexTerm", "None"):
+                    table.add((kind, hc))
+                elif hc not in (0, 1):
+                    bad_tab = "has_content = %s" % fmt(hc)[:60]
+    if n == 0:
+        res.anchor_lost(rid, "no Terminal is inserted into self.terminals in collect_terminals", f.loc())
+        return
+    if bad_rec:
+        res.violation(rid, "collect_terminals/recogniser-as-written", "the recogniser stored for a terminal is not the parsed one (%s): a "
+                      "terminal written as a regular expression can become a string match and lose its text in the default AST" % bad_rec, f.loc())
+    else:
+        res.ok(rid, "collect_terminals/recogniser-as-written", f.loc(), "%d insert paths, recognizer = the parsed rule's, never reassigned" % n)
+    want = {("StrConst", 0), ("RegexTerm", 1), ("None", 1)}
+    if bad_tab or table != want:
+        res.violation(rid, "collect_terminals/content-table", "has_content is not `false exactly for a string match`: %s" % (
+            bad_tab or sorted(table)), f.loc())
+    else:
+        res.ok(rid, "collect_terminals/content-table", f.loc(), "StrConst -> no content; RegexTerm, no recogniser -> content")
+
+
 def run(ctx, res):
     r7_bool_assignment(ctx, res)
+    r8_terminal_content(ctx, res)
     rid = res.rule("C10-R1", "every DefaultBuilder reduce arm pops |rhs| symbols (prod_len in right-nulled arms, one arm per "
                    "offered length), binds the content positions p0,p1,.. left to right under the right variant names, and "
                    "calls the action with context, p0..pk in order (None fillers only for the nulled tail)", floor=30)
